@@ -1058,7 +1058,11 @@ def linear_combination_sum(st, parts, weight_fn, name):
 
 def c_formula_class(interp, st, args, kw):
     """Formula(structure=, name=, density=, natural_density=): records its keywords (units Formula.__init__[...])"""
-    return VObj("FormulaCtor", dict(kw))
+    rec = {"structure": VTuple([]), "density": None, "natural_density": None, "name": None}   # the defaults of Formula.__init__
+    for k, v in zip(("structure", "density", "natural_density", "name"), args):
+        rec[k] = v
+    rec.update(kw)
+    return VObj("FormulaCtor", rec)
 
 
 def _ff_inputs(mode):
@@ -1139,10 +1143,15 @@ def c_immutable_any(interp, st, args, kw):
     return VObj("Immutable", {"of": args[0]})
 
 
-def _fk_inputs(kind):
+def _fk_inputs(kind0):
     def mk(st, interp):
         use_state(st)
+        kind = kind0
         C = {"kind": kind}
+        natural = kind.endswith("-natural") and not kind.startswith("string")
+        if natural:
+            kind = kind[:-len("-natural")]
+            C["kind"], C["natural"] = kind, True
         if kind == "none":
             arg = None
         elif kind == "empty-string":
@@ -1159,12 +1168,58 @@ def _fk_inputs(kind):
             arg = SEQS.new(st, "seq")
             arg.kind = "list"
             C["seq"] = arg
+        elif kind.startswith("string"):
+            # the text is opaque to formula() itself (it only asks whether it is empty or holds a ':'); what it means is the
+            # parser's business (C01).  The parse result is an arbitrary Formula object carrying arbitrary recorded amounts.
+            arg = "2g Co // 2g Ti"
+            C["parsed"] = VObj("Parsed", {"name": None, "density": st.fresh("parsed_density", z3.RealSort()),
+                                          "total_mass": st.fresh("parsed_total_mass", z3.RealSort()),
+                                          "thickness": st.fresh("parsed_thickness", z3.RealSort())})
+            C["parsed0"] = dict(C["parsed"].attrs)
+            st.ghost["parse_result"] = C["parsed"]
+            st.ghost["parse_calls"] = []
         C["arg"] = arg
         d = st.fresh("density", z3.RealSort())
         st.assume(d > 0)
         C["density"] = d
+        if kind0.endswith("-natural"):
+            return [arg], {"natural_density": d, "name": "nm"}, C
+        if kind == "string-plain":
+            return [arg], {}, C
         return [arg], {"density": d, "name": "nm"}, C
     return mk
+
+
+def c_parse_formula_opaque(interp, st, args, kw):
+    """parse_formula(text, table=): some Formula object (what it holds is the parser's contract, C01)"""
+    st.ghost["parse_calls"].append((args, kw))
+    return st.ghost["parse_result"]
+
+
+def _fk_string_post(st, interp, C, res):
+    if res.outcome == "raise":
+        st.oblige("never-raises when the parser accepts the text", False, kind="raises", info={"exc": res.exc})
+        return
+    r, kind, P = res.value, C["kind"], C["parsed"]
+    calls = st.ghost["parse_calls"]
+    st.oblige("post.the text is parsed once, as given", z3.BoolVal(len(calls) == 1 and len(calls[0][0]) == 1 and calls[0][0][0] == C["arg"]))
+    st.oblige("post.formula(text, ...) IS the parser's result (recorded total_mass / thickness are carried, nothing is rebuilt)",
+              z3.BoolVal(r is P))
+    if r is not P:
+        return
+    for k in ("total_mass", "thickness"):
+        st.oblige("post.recorded %s untouched" % k, z3.BoolVal(P.attrs.get(k) is C["parsed0"][k]))
+    if kind == "string":
+        st.oblige("post.density keyword is the density of the result", spec.eq_goal(interp, st, P.attrs.get("density"), C["density"]))
+        st.oblige("post.name keyword is recorded", z3.BoolVal(P.attrs.get("name") == "nm"))
+        st.oblige("post.no natural density is set when density= is given", z3.BoolVal("natural_density" not in P.attrs))
+    elif kind == "string-natural":
+        st.oblige("post.natural_density keyword is handed to the natural_density setter",
+                  spec.eq_goal(interp, st, P.attrs.get("natural_density"), C["density"]))
+        st.oblige("post.name keyword is recorded", z3.BoolVal(P.attrs.get("name") == "nm"))
+    else:
+        st.oblige("post.without keywords the parse result is returned unchanged",
+                  z3.BoolVal(all(P.attrs.get(k) is v for k, v in C["parsed0"].items()) and set(P.attrs) == set(C["parsed0"])))
 
 
 def _fk_post(st, interp, C, res):
@@ -1190,7 +1245,12 @@ def _fk_post(st, interp, C, res):
     else:
         st.oblige("post.formula(sequence) is the immutable copy of exactly that sequence",
                   z3.BoolVal(isinstance(s, VObj) and s.cls == "Immutable" and s.attrs["of"] is C["seq"]))
-    st.oblige("post.density keyword is passed on", spec.eq_goal(interp, st, r.attrs.get("density"), C["density"]))
+    if C.get("natural"):
+        st.oblige("post.natural_density keyword is passed on", spec.eq_goal(interp, st, r.attrs.get("natural_density"), C["density"]))
+        st.oblige("post.no isotopic density is made up when only natural_density= is given",
+                  z3.BoolVal(r.attrs.get("density") is None))
+    else:
+        st.oblige("post.density keyword is passed on", spec.eq_goal(interp, st, r.attrs.get("density"), C["density"]))
     st.oblige("post.name keyword is passed on", z3.BoolVal(r.attrs.get("name") == "nm"))
 
 
@@ -1200,6 +1260,19 @@ U_FORMULA_KINDS = [Unit("formula(%s)" % k, FORMULAS + ".formula", _fk_inputs(k),
                         inline={CORE + ".isatom", FORMULAS + "._is_string_like"},
                         replay={"module": "c02", "task": "replay"})
                    for k in ("none", "empty-string", "atom", "dict", "sequence")]
+
+U_FORMULA_KINDS_NATURAL = [Unit("formula(%s)" % k, FORMULAS + ".formula", _fk_inputs(k), _fk_post,
+                                contracts={FORMULAS + ".Formula": c_formula_class, FORMULAS + "._convert_to_hill_notation": c_hill_notation,
+                                           FORMULAS + "._immutable": c_immutable_any},
+                                inline={CORE + ".isatom", FORMULAS + "._is_string_like"},
+                                replay={"module": "stateful", "task": "C12"})
+                           for k in ("none-natural", "atom-natural", "dict-natural", "sequence-natural")]
+
+U_FORMULA_STRING = [Unit("formula(%s)" % k, FORMULAS + ".formula", _fk_inputs(k), _fk_string_post,
+                         contracts={FORMULAS + ".parse_formula": c_parse_formula_opaque, FORMULAS + ".Formula": c_formula_class},
+                         inline={CORE + ".isatom", FORMULAS + "._is_string_like"},
+                         replay={"module": "stateful", "task": "C11"}, writes={"name", "density", "natural_density"})
+                    for k in ("string", "string-natural", "string-plain")]
 
 
 # ==============================================================================  _immutable (general recursion)
